@@ -1,0 +1,153 @@
+//go:build verif
+
+package align
+
+// Contracts for property C16 (phasing). Comment-only file read by govc.
+
+// every reference handed to the workers is a sequence object
+//@ pure func c16_refs(orfs []Sequence) bool = forall j :: 0 <= j && j < len(orfs) ==> orfs[j] != nil
+
+// aa is the translation of nt read in frame f (same relation as the one proved of (*seq).Translate)
+//@ pure func c16_istr(aa *seq, nt *seq, f int, g int) bool = forall k :: 0 <= k && k < len(aa.sequence) ==> tcrel(codeof(g), aa.sequence[k], nt.sequence[f+3*k], nt.sequence[f+3*k+1], nt.sequence[f+3*k+2])
+// a translation object made during the call, not reachable from later allocations
+//@ pure func c16_mine(s *seq) bool = s != nil && fresh(s) && allocated(s) && fresh(s.sequence) && allocated(s.sequence)
+// nucleotide window [s, e) and amino-acid window [sa, ea) in frame with each other: frame s - 3*sa in 0..2
+//@ pure func c16_win(lnt int, laa int, s int, e int, sa int, ea int) bool = 0 <= sa && sa <= ea && ea <= laa && 0 <= s - 3*sa && s - 3*sa <= 2 && e <= lnt && ((e == lnt && ea == laa) || e == s + 3*(ea - sa)) && lnt - (s - 3*sa) >= 3 && laa == (lnt - (s - 3*sa)) / 3
+
+//@ func (*phaser).alignAgainstRefsAA
+//@   props C16
+//@   float xreal
+//@   requires p != nil && seq != nil && c16_refs(orfsaa)
+// one identifiable record per input: a result without error names its input sequence
+//@   ensures err == nil && ph_Err == nil ==> ph_NtSeq != nil && ph_NtSeq.name == seq.name
+//@   ensures err != nil ==> ph_Err != nil
+// full record (CodonSeq present; a record without it is the "discarded, nothing aligns" record and has Removed set)
+//@   ensures err == nil && ph_Err == nil && ph_CodonSeq == nil ==> ph_Removed && ph_NtSeq == seq
+//@   ensures err == nil && ph_Err == nil && ph_CodonSeq != nil ==> ph_AaSeq != nil && 0 <= ph_Position && sameslice(ph_CodonSeq.sequence, ph_NtSeq.sequence)
+// the trimmed nucleotides are the window of the input that starts at Position, or a window (starting at Position) of a
+// sequence built during the call (the reverse-complemented clone) when the reverse strand is allowed
+//@   ensures err == nil && ph_Err == nil && ph_CodonSeq != nil ==> ph_Position + len(ph_NtSeq.sequence) <= len(seq.sequence) && ((base(ph_NtSeq.sequence) == base(seq.sequence) && off(ph_NtSeq.sequence) == off(seq.sequence) + ph_Position) || (p.reverse && fresh(ph_NtSeq.sequence)))
+// codons and residues are in frame: one residue per complete codon, at most 2 trailing bases
+//@   ensures err == nil && ph_Err == nil && ph_CodonSeq != nil ==> 3 * len(ph_AaSeq.sequence) <= len(ph_CodonSeq.sequence) && len(ph_CodonSeq.sequence) <= 3 * len(ph_AaSeq.sequence) + 2
+//@   modifies nothing
+//@   loop 1
+//@     invariant seq != nil && revcomp != nil && (p.reverse ? phases == 6 : phases == 3 && revcomp == seq)
+//@     invariant err == nil
+//@     invariant p.reverse ==> c16_mine(revcomp) && len(revcomp.sequence) == len(seq.sequence) && revcomp.name == seq.name
+//@     invariant bestseq != nil ==> (bestseq == seq || bestseq == revcomp)
+//@     invariant bestseq != nil ==> c16_mine(bestseqaa)
+//@     invariant bestseq != nil ==> c16_win(len(bestseq.sequence), len(bestseqaa.sequence), beststart, bestend, beststartaa, bestendaa)
+// NOT PROVED (see report): //     invariant bestseq != nil ==> c16_istr(bestseqaa, bestseq, beststart - 3*beststartaa, p.geneticcode)
+//@   loop 2
+//@     invariant seq != nil && revcomp != nil && (p.reverse ? phases == 6 : phases == 3 && revcomp == seq) && 0 <= phase && orfaa != nil
+//@     invariant err == nil
+//@     invariant p.reverse ==> c16_mine(revcomp) && len(revcomp.sequence) == len(seq.sequence) && revcomp.name == seq.name
+//@     invariant bestseq != nil ==> (bestseq == seq || bestseq == revcomp)
+//@     invariant bestseq != nil ==> c16_mine(bestseqaa)
+//@     invariant bestseq != nil ==> c16_win(len(bestseq.sequence), len(bestseqaa.sequence), beststart, bestend, beststartaa, bestendaa)
+// NOT PROVED (see report): //     invariant bestseq != nil ==> c16_istr(bestseqaa, bestseq, beststart - 3*beststartaa, p.geneticcode)
+
+// alignAgainstRefsNT: nucleotide-level search (1 or 2 strands)
+//@ func (*phaser).alignAgainstRefsNT
+//@   props C16
+//@   float xreal
+//@   requires p != nil && seq != nil && c16_refs(orfs)
+//@   ensures err == nil && ph_Err == nil ==> ph_NtSeq != nil && ph_NtSeq.name == seq.name
+//@   ensures err == nil && ph_Err == nil && ph_CodonSeq == nil ==> ph_Removed && ph_NtSeq == seq
+//@   ensures err == nil && ph_Err == nil && ph_CodonSeq != nil ==> ph_AaSeq != nil && 0 <= ph_Position
+//@   ensures err == nil && ph_Err == nil && ph_CodonSeq != nil ==> ph_Position + len(ph_NtSeq.sequence) <= len(seq.sequence) && ((base(ph_NtSeq.sequence) == base(seq.sequence) && off(ph_NtSeq.sequence) == off(seq.sequence) + ph_Position) || (p.reverse && fresh(ph_NtSeq.sequence)))
+// the codon sequence is the trimmed sequence minus 0..2 leading bases (same end)
+//@   ensures err == nil && ph_Err == nil && ph_CodonSeq != nil ==> base(ph_CodonSeq.sequence) == base(ph_NtSeq.sequence) && 0 <= len(ph_NtSeq.sequence) - len(ph_CodonSeq.sequence) && len(ph_NtSeq.sequence) - len(ph_CodonSeq.sequence) <= 2 && off(ph_CodonSeq.sequence) == off(ph_NtSeq.sequence) + (len(ph_NtSeq.sequence) - len(ph_CodonSeq.sequence))
+// the amino-acid sequence is the translation of the codon sequence in frame 0 with the configured code
+//@   ensures err == nil && ph_Err == nil && ph_CodonSeq != nil ==> len(ph_AaSeq.sequence) == len(ph_CodonSeq.sequence) / 3 && c16_istr(ph_AaSeq, ph_CodonSeq, 0, p.geneticcode)
+//@   modifies nothing
+//@   loop 1
+//@     invariant seq != nil && revcomp != nil && (p.reverse ? phases == 2 : phases == 1 && revcomp == seq)
+//@     invariant p.reverse ==> c16_mine(revcomp) && len(revcomp.sequence) == len(seq.sequence) && revcomp.name == seq.name
+//@     invariant bestseq != nil ==> (bestseq == seq || bestseq == revcomp) && 0 <= beststart && beststart <= bestend && bestend <= len(bestseq.sequence) && 0 <= nbgapstart
+//@   loop 2
+//@     invariant seq != nil && revcomp != nil && (p.reverse ? phases == 2 : phases == 1 && revcomp == seq) && 0 <= phase && orf != nil
+//@     invariant p.reverse ==> c16_mine(revcomp) && len(revcomp.sequence) == len(seq.sequence) && revcomp.name == seq.name
+//@     invariant bestseq != nil ==> (bestseq == seq || bestseq == revcomp) && 0 <= beststart && beststart <= bestend && bestend <= len(bestseq.sequence) && 0 <= nbgapstart
+//@   loop 3
+//@     invariant 0 <= i && nbgapstart == i
+
+// ---- the fan-out of Phase: worker closure (Phase$1), closing closure (Phase$2) ----
+
+// Sequences(): the rows of the bag, in order (proved for *seqbag; *align runs the same method through embedding)
+//@ func (*seqbag).Sequences
+//@   props C16 C19
+//@   requires sb != nil
+//@   ensures len(seqs) == nrows(sb) && fresh(seqs) && (forall r :: 0 <= r && r < nrows(sb) ==> seqs[r] == row(sb, r))
+//@   modifies nothing
+//@   loop 1
+//@     invariant len(seqs) == nrows(sb) && fresh(seqs)
+//@     invariant forall r :: 0 <= r && r < $i ==> seqs[r] == row(sb, r)
+//@     decreases nrows(sb) - $i
+
+// Worker: ghost counters of the engine's channel model: ghost(recv) = values received, ghost(sent) = values sent.
+//  - every sequence received is answered by exactly one result before the next one is taken (loop invariant sent == recv),
+//    unless the shared error variable was set by another worker (then the sequence just taken is dropped and the worker stops);
+//  - a result is an error record or names the sequence it belongs to (channel invariant on the results);
+//  - Done is called on every path (it is deferred), after the last send.
+//@ func (*phaser).Phase$1
+//@   props C16
+//@   float xreal
+//@   chaninv Sequence : elem != nil
+//@   chaninv PhasedSequence : elem_Err != nil || elem_NtSeq != nil
+//@   requires wg != nil && p != nil && orfsaa != nil && orfs != nil && rowsok(orfsaa) && rowsok(orfs)
+//@   ensures gf(wgdone, wg) == old(gf(wgdone, wg)) + 1
+//@   ensures ghost(sent) - old(ghost(sent)) == ghost(recv) - old(ghost(recv)) || (err != nil && ghost(sent) - old(ghost(sent)) == ghost(recv) - old(ghost(recv)) - 1)
+//@   ensures ghost(closed) == old(ghost(closed))
+//@   modifies captured(Phase$1.err), gf(wgdone)
+//@   loop 1
+//@     invariant gf(wgdone, wg) == old(gf(wgdone, wg)) && ghost(closed) == old(ghost(closed))
+//@     invariant ghost(sent) - old(ghost(sent)) == ghost(recv) - old(ghost(recv))
+
+// Closer: the result channel is closed exactly once, after Wait has returned (all Add matched by Done, i.e. every
+// worker is past its last send); the input channel is then drained.
+//@ func (*phaser).Phase$2
+//@   props C16
+//@   requires wg != nil
+//@   ensures ghost(closed) == old(ghost(closed)) + 1 && ghost(sent) == old(ghost(sent))
+//@   ensures gf(wgdone, wg) == gf(wgadded, wg)
+//@   modifies gf(wgdone), gf(wgadded)
+//@   loop 1
+//@     invariant ghost(closed) == old(ghost(closed)) + 1 && ghost(sent) == old(ghost(sent)) && gf(wgdone, wg) == gf(wgadded, wg)
+
+// ---- reference search when no ORF is supplied ----
+
+// (*seq).LongestORF is a regular-expression search (library code: not verifiable here). ASSUMED: the documented shape of
+// the result of FindAllStringIndex — no match (-1,-1), or a window [start,end) of the sequence holding at least ATG + stop.
+// NOT CLAIMED: that the window is a longest ORF of the sequence — it is not (defect 2: non-overlapping matches hide longer
+// ORFs of other frames).
+//@ func (*seq).LongestORF
+//@   props C16
+//@   trusted regexp search in library code; only the shape of the result is assumed
+//@   requires s != nil
+//@   ensures (start == -1 && end == -1) || (0 <= start && start + 6 <= end && end <= len(s.sequence))
+//@   modifies nothing
+
+// (*seqbag).LongestORF: safety and shape only — no panic, inputs not modified, error iff no row (and no reverse strand)
+// reports an ORF; the result is a fresh record of at least 6 bases. The maximality over rows/strands is NOT COVERED.
+//@ func (*seqbag).LongestORF
+//@   props C16 C19
+//@   requires sb != nil && rowsok(sb)
+//@   ensures err == nil ==> orf != nil && fresh(orf) && len(orf.sequence) >= 6
+//@   modifies nothing
+//@   loop 1
+//@     invariant !found ==> beststart == 0 && bestend == 0
+//@     invariant found ==> bestseq != nil && 0 <= beststart && beststart + 6 <= bestend && bestend <= len(bestseq.sequence)
+//@     decreases nrows(sb) - $i
+
+// Producer of the input channel: every row is sent exactly once, in order, as a non-nil sequence (what the workers
+// assume of the values they receive), then the channel is closed.
+//@ func (*seqbag).SequencesChan$1
+//@   props C16 C19
+//@   chaninv Sequence : elem != nil
+//@   requires sb != nil && rowsok(sb)
+//@   ensures ghost(sent) == old(ghost(sent)) + nrows(sb) && ghost(closed) == old(ghost(closed)) + 1
+//@   modifies nothing
+//@   loop 1
+//@     invariant ghost(sent) == old(ghost(sent)) + $i && ghost(closed) == old(ghost(closed))
+//@     decreases nrows(sb) - $i
